@@ -192,7 +192,19 @@ func buildC18(model, parts, shape, appMode string, variant int) *c18Case {
 			c.Files["router"] = v4 + "COMMIT\nip route add 10.99.0.0/16 via 10.0.0.2\n"
 		}
 		if hasRaw {
-			raw := "*filter\n:INPUT DROP\n"
+			raw := ""
+			if variant%2 == 1 {
+				// A table of its own in front, using [APPEND]; hand
+				// written files may omit COMMIT between tables.
+				id1, id2 := fmt.Sprintf("10.9.0.%d", uid()), fmt.Sprintf("10.9.0.%d", uid())
+				raw += "*mangle\n:PREROUTING ACCEPT\n-A PREROUTING -s " + id1 + " -j ACCEPT\n[APPEND]\n-A PREROUTING -s " + id2 + " -j ACCEPT\n"
+				add("-s "+id1+" ", "raw", false, true, "PREROUTING", 0)
+				add("-s "+id2+" ", "raw", true, true, "PREROUTING", 1)
+				if variant%4 == 3 {
+					raw += "COMMIT\n"
+				}
+			}
+			raw += "*filter\n:INPUT DROP\n"
 			for i, p := range pre {
 				id := fmt.Sprintf("10.7.0.%d", uid())
 				raw += fmt.Sprintf("-A INPUT -s %s -j %s\n", id, act(p, "ACCEPT", "DROP"))
@@ -460,21 +472,21 @@ func judgeC18(c *c18Case, r run.Result) (clause, what string) {
 		}
 	}
 	// APPEND after last Netspoc permit, before trailing denies.
-	lastPermit := -1
-	for j, b := range c.Lines {
-		if b.Part != "raw" && b.Permit && pos[j] > lastPermit {
-			lastPermit = pos[j]
-		}
-	}
 	for i, a := range c.Lines {
 		if !a.Append {
 			continue
+		}
+		lastPermit := -1
+		for j, b := range c.Lines {
+			if b.Part != "raw" && b.List == a.List && b.Permit && pos[j] > lastPermit {
+				lastPermit = pos[j]
+			}
 		}
 		if pos[i] < lastPermit {
 			return "append-before-last-permit", fmt.Sprintf("APPEND line %s precedes last Netspoc permit", a.ID)
 		}
 		for j, b := range c.Lines {
-			if b.Part != "raw" && !b.Permit && pos[j] > lastPermit && pos[i] > pos[j] {
+			if b.Part != "raw" && b.List == a.List && !b.Permit && pos[j] > lastPermit && pos[i] > pos[j] {
 				return "append-after-trailing-deny", fmt.Sprintf("APPEND line %s follows trailing deny %s", a.ID, b.ID)
 			}
 		}
